@@ -111,6 +111,9 @@ _MUTATORS = {
     "shutil.copyfile", "shutil.copymode", "shutil.copystat", "shutil.move",
     "shutil.rmtree", "shutil.copytree", "tempfile.mkstemp", "tempfile.mkdtemp",
 }
+LOWLEVEL = {"open-w", "open-create", "os.remove", "os.rename", "os.mkdir",
+            "os.rmdir", "os.truncate", "os.link", "os.symlink", "os.chmod",
+            "os.utime", "os.chown"}
 _audit_sinks = []
 _audit_installed = False
 
